@@ -24,6 +24,10 @@ func rulesC02(c *Ctx) {
 	ruleCheckFnTable(c)
 	ruleCanResolve(c)
 	ruleRetryAfterInstall(c)
+	// installed references stay installed only while deletion protection counts them exactly (shared with C03)
+	ruleHandleReferencesTable(c)
+	ruleNHGReferences(c)
+	ruleInstallRefs(c)
 }
 
 // optionAppends lists the option constructors appended to the slice passed to NewRIBHolder in fn.
@@ -380,8 +384,8 @@ func ruleCanResolve(c *Ctx) {
 		why := ""
 		for _, p := range paths {
 			out := defaultOutcome(info, fi.Decl, p)
-			zero := rv != nil && p.Entails(numEqF(rv.Name()+".Index", "const:0"))
-			nonzero := rv != nil && p.Entails(fnot(numEqF(rv.Name()+".Index", "const:0")))
+			zero := rv != nil && p.Entails(numEqF(varKey(rv)+".Index", "const:0"))
+			nonzero := rv != nil && p.Entails(fnot(numEqF(varKey(rv)+".Index", "const:0")))
 			switch {
 			case zero && out == "ret(false, err(plain))":
 			case nonzero && out == "ret(true, nil)":
@@ -479,7 +483,7 @@ func checkGroupArm(c *Ctx, rule string, fi *FuncInfo, rs *ast.RangeStmt, ownRIB 
 		li := idx(p, "lookup")
 		switch p.End {
 		case "return":
-			zero := mv != nil && p.Entails(numEqF(mv.Name()+".Index", "const:0"))
+			zero := mv != nil && p.Entails(numEqF(varKey(mv)+".Index", "const:0"))
 			if zero && out == "ret(false, err(plain))" {
 				continue
 			}
@@ -500,7 +504,7 @@ func checkGroupArm(c *Ctx, rule string, fi *FuncInfo, rs *ast.RangeStmt, ownRIB 
 			if d.ok == nil || factsAfter(info, p, li, len(p.Events)).Obj(d.ok) != +1 {
 				good, why = false, "a member is accepted although the lookup did not succeed: "+p.describe(c.P)
 			}
-			if mv == nil || !p.Entails(fnot(numEqF(mv.Name()+".Index", "const:0"))) {
+			if mv == nil || !p.Entails(fnot(numEqF(varKey(mv)+".Index", "const:0"))) {
 				good, why = false, "a member with index 0 is not rejected: "+p.describe(c.P)
 			}
 		}
@@ -528,18 +532,18 @@ func checkGroupArm(c *Ctx, rule string, fi *FuncInfo, rs *ast.RangeStmt, ownRIB 
 		if insideInner && p.EndNode.Pos() >= inner.Body.Pos() && p.EndNode.End() <= inner.Body.End() {
 			continue // judged above
 		}
-		zeroID := gv != nil && p.Entails(numEqF(gv.Name()+".Id", "const:0"))
-		empty := gv != nil && p.Entails(&FLit{mustOrd("const:0", "len("+gv.Name()+".NextHop)"), 3, 2})
+		zeroID := gv != nil && p.Entails(numEqF(varKey(gv)+".Id", "const:0"))
+		empty := gv != nil && p.Entails(&FLit{mustOrd("const:0", "len("+varKey(gv)+".NextHop)"), 3, 2})
 		switch {
 		case out == "ret(true, nil)":
 			sawTrue = true
 			if zeroID || empty {
 				good2, why2 = false, "a group with id 0 or without members is declared resolvable"
 			}
-			if gv == nil || !p.Entails(fnot(numEqF(gv.Name()+".Id", "const:0"))) {
+			if gv == nil || !p.Entails(fnot(numEqF(varKey(gv)+".Id", "const:0"))) {
 				good2, why2 = false, "group id 0 is not rejected before the group is declared resolvable"
 			}
-			if gv == nil || !p.Entails(fnot(&FLit{mustOrd("const:0", "len("+gv.Name()+".NextHop)"), 3, 2})) {
+			if gv == nil || !p.Entails(fnot(&FLit{mustOrd("const:0", "len("+varKey(gv)+".NextHop)"), 3, 2})) {
 				good2, why2 = false, "an empty group is not rejected before the group is declared resolvable"
 			}
 		case out == "ret(false, err(plain))" && (zeroID || empty):
@@ -621,8 +625,8 @@ func checkTopLevelArm(c *Ctx, rule string, fi *FuncInfo, rs *ast.RangeStmt, k *K
 	var sig []string
 	for _, p := range paths {
 		out := defaultOutcome(info, fi.Decl, p)
-		zero := p.Entails(numEqF("const:0", iv.Name()+".NextHopGroup"))
-		nonzero := p.Entails(fnot(numEqF("const:0", iv.Name()+".NextHopGroup")))
+		zero := p.Entails(numEqF("const:0", varKey(iv)+".NextHopGroup"))
+		nonzero := p.Entails(fnot(numEqF("const:0", varKey(iv)+".NextHopGroup")))
 		switch {
 		case zero && out == "ret(false, err(plain))":
 			sig = append(sig, "zero→error")
@@ -659,6 +663,22 @@ func checkResolver(c *Ctx, rule string, fi *FuncInfo, body *ast.BlockStmt, param
 		return
 	}
 	holder, otherNI, id := params[0], params[1], params[2]
+	// the holder the lookup runs on: the parameter itself, or a local initialised from it
+	// (resolveRIB := localRIB) that may then be switched to the named instance
+	isHolder := func(o types.Object) bool {
+		if o == nil {
+			return false
+		}
+		if o == holder {
+			return true
+		}
+		if v, ok := o.(*types.Var); ok && !v.IsField() {
+			if init := declInit(info, body, v); init != nil && objOfIdent(info, init) == holder {
+				return true
+			}
+		}
+		return false
+	}
 	ev := func(n ast.Node) []Event {
 		var out []Event
 		for _, call := range callsIn(n) {
@@ -668,7 +688,7 @@ func checkResolver(c *Ctx, rule string, fi *FuncInfo, body *ast.BlockStmt, param
 				d := &addEvData{call: call}
 				if as := assignedFromCall(info, n, call); len(as) == 2 {
 					d.ok = as[1]
-					if as[0] == holder {
+					if isHolder(as[0]) {
 						if objOfIdent(info, call.Args[0]) == otherNI {
 							out = append(out, Event{Kind: "switch-to-named", Node: call, Data: d})
 							continue
@@ -682,7 +702,7 @@ func checkResolver(c *Ctx, rule string, fi *FuncInfo, body *ast.BlockStmt, param
 					d.ok = as[1]
 				}
 				se := ast.Unparen(call.Fun).(*ast.SelectorExpr)
-				if objOfIdent(info, se.X) == holder && objOfIdent(info, call.Args[0]) == id {
+				if isHolder(objOfIdent(info, se.X)) && objOfIdent(info, call.Args[0]) == id {
 					out = append(out, Event{Kind: "lookup", Node: call, Data: d})
 				} else {
 					out = append(out, Event{Kind: "lookup-other", Node: call, Data: d})
@@ -898,7 +918,19 @@ func ruleRetryAfterInstall(c *Ctx) {
 		lp, _ := enumPaths(info, rs.Body.List, ev)
 		skip := ""
 		for _, p := range lp {
-			if p.End == "return" || p.End == "panic" {
+			if p.End == "panic" {
+				continue
+			}
+			if p.End == "return" {
+				// leaving the walk early is only allowed with an error
+				if rs2, ok := p.EndNode.(*ast.ReturnStmt); ok && len(rs2.Results) == 1 && !isNilIdent(info, rs2.Results[0]) {
+					continue
+				}
+				skip = "the walk is abandoned without an error: " + p.describe(c.P)
+				continue
+			}
+			if p.End == "break" {
+				skip = "the walk stops after one held operation: " + p.describe(c.P)
 				continue
 			}
 			if !p.has("retry") {
@@ -908,6 +940,87 @@ func ruleRetryAfterInstall(c *Ctx) {
 		c.check(skip == "", rule, fi.Name, "every held operation is retried", c.P.pos(rs.Pos()), fmt.Sprintf("%d paths through the retry loop body, all re-submit", len(lp)), "a held operation can be skipped by the retry walk although something was just installed: it stays unanswered while resolvable ("+skip+")")
 		return true
 	})
+	// a held operation is recorded with its own instance and operation, under its own id
+	opName, niName := "", ""
+	if len(params) >= 2 && params[0] != nil && params[1] != nil {
+		niName, opName = params[0].Name(), params[1].Name()
+	}
+	holds, holdOK := 0, true
+	holdWhy := ""
+	for _, call := range callsIn(fi.Decl.Body) {
+		if !isMethod(calleeObj(info, call), ribPkg, "RIB", "addPending") || len(call.Args) != 2 {
+			continue
+		}
+		holds++
+		if canonTerm(fi, call.Args[0]) != opName+".Id" {
+			holdOK, holdWhy = false, "held under "+canonTerm(fi, call.Args[0])+", not under the operation's own id"
+		}
+		cl, isLit := unAddr(resolveLocal(info, fi.Decl, call.Args[1])).(*ast.CompositeLit)
+		if !isLit {
+			holdOK, holdWhy = false, "the pending entry is not a literal"
+			continue
+		}
+		f := compositeFields(cl)
+		if f["ni"] == nil || f["op"] == nil || canonTerm(fi, f["ni"]) != niName || canonTerm(fi, f["op"]) != opName {
+			holdOK, holdWhy = false, fmt.Sprintf("the pending entry records (ni=%s, op=%s), not the operation's own (%s, %s): it would later be installed elsewhere or as something else", exprStr(f["ni"]), exprStr(f["op"]), niName, opName)
+		}
+	}
+	c.check(holdOK && holds >= 1, rule, fi.Name, "an operation is held with its own id, instance and payload", pos, fmt.Sprintf("%d hold site(s): addPending(op.Id, {ni, op})", holds), holdWhy)
+	// an installed operation is marked in the install stack before the retry walk (else an outer walk re-submits and re-acknowledges it)
+	markOK, nInst := true, 0
+	markEv := func(n ast.Node) []Event {
+		out := ev(n)
+		inspectNoFuncLit(n, func(m ast.Node) bool {
+			if as, ok := m.(*ast.AssignStmt); ok && len(as.Lhs) == 1 && len(as.Rhs) == 1 {
+				if ie, ok := ast.Unparen(as.Lhs[0]).(*ast.IndexExpr); ok && len(params) >= 5 && objOfIdent(info, ie.X) == params[4] {
+					if b, isB := boolConst(info, as.Rhs[0]); isB && b && canonTerm(fi, ie.Index) == opName+".Id" {
+						out = append(out, Event{Kind: "mark", Node: as})
+					}
+				}
+			}
+			return true
+		})
+		sort.SliceStable(out, func(i, j int) bool { return out[i].Node.Pos() < out[j].Node.Pos() })
+		return out
+	}
+	mpaths, _ := enumFunc(fi, markEv, nil)
+	markWhy := ""
+	for _, p := range mpaths {
+		gi := idx(p, "getPending")
+		if gi < 0 {
+			continue
+		}
+		nInst++
+		if mi := idx(p, "mark"); mi < 0 || mi > gi {
+			markOK, markWhy = false, "the held operations are walked without the installed operation being marked in the install stack: "+p.describe(c.P)
+		}
+	}
+	c.check(markOK && nInst >= 1, rule, fi.Name, "an installed operation is marked in the install stack before the retry walk", pos, fmt.Sprintf("%d paths reach the retry walk, all after installStack[op.Id] = true", nInst), markWhy)
+	// every terminal verdict of an operation that may have been held (it is removed from the pending set) is
+	// marked in the install stack: a walk further up the stack still holds a snapshot that contains it
+	termOK, nTerm, termWhy := true, 0, ""
+	for _, p := range mpaths {
+		ri := -1
+		for i, e := range p.Events {
+			if e.Kind == "rmPending" && !e.InLoop && ri < 0 {
+				ri = i
+			}
+		}
+		if ri < 0 {
+			continue
+		}
+		nTerm++
+		marked := false
+		for _, e := range p.Events {
+			if e.Kind == "mark" && !e.InLoop {
+				marked = true
+			}
+		}
+		if !marked {
+			termOK, termWhy = false, "an operation gets its terminal verdict and leaves the pending set without being marked in the install stack: an outer retry walk over an older snapshot re-submits it and it is answered twice: "+p.describe(c.P)
+		}
+	}
+	c.check(termOK && nTerm >= 2, rule, fi.Name, "a terminal verdict is marked in the install stack", pos, fmt.Sprintf("%d verdict paths (installed and failed), all marked", nTerm), termWhy)
 	// getPending returns every pending entry
 	if gp := c.need("rib", "RIB", "getPending"); gp != nil {
 		ginfo := gp.Pkg.TypesInfo
